@@ -251,6 +251,7 @@ func (g *gen) regionOp() string {
 	return fmt.Sprintf("region %d %d %d %s %d", r.GetID(), s, e, "i", cur)
 }
 
+// gstore: tomb is the meta state of the store: 0 Up, 1 Tombstone, 2 Offline (crossed with liveness `down`).
 type gstore struct{ label, down, tomb int }
 
 func (g *gen) storeOp() string {
@@ -281,14 +282,19 @@ func (g *gen) storeOp() string {
 		if len(cand) > 0 {
 			id = cand[g.r.Intn(len(cand))]
 			label, down = g.stores[id].label, 0
+			if g.r.Bool(1, 3) {
+				// `store delete` on a dead store: Offline, still down, still holds its replicas
+				g.stats["store offline while down"]++
+				g.stores[id] = gstore{label, 1, 2}
+				return fmt.Sprintf("store %d %d 1 2", id, label)
+			}
 		}
 	}
 	if g.r.Bool(1, 14) {
 		label = g.r.Intn(4)
 	}
-	if g.r.Bool(1, 25) {
-		tomb = 1
-	}
+	tomb = []int{0, 2, 1}[g.r.Pick(80, 13, 7)]
+	g.stats[fmt.Sprintf("store meta=%d down=%d", tomb, down)]++
 	g.stores[id] = gstore{label, down, tomb}
 	return fmt.Sprintf("store %d %d %d %d", id, label, down, tomb)
 }
@@ -297,9 +303,13 @@ func (g *gen) storeOp() string {
 func (g *gen) setStores(pick func(gstore) bool, down int) {
 	for i := 1; i <= g.nStores; i++ {
 		st := g.stores[i]
-		if pick(st) && (st.down != down || st.tomb != 0) {
-			g.stores[i] = gstore{st.label, down, 0}
-			g.run(fmt.Sprintf("store %d %d %d 0", i, st.label, down))
+		if pick(st) && (st.down != down || st.tomb == 1) {
+			meta := 0
+			if st.tomb == 2 && g.r.Bool(2, 3) {
+				meta = 2 // an Offline store stays Offline
+			}
+			g.stores[i] = gstore{st.label, down, meta}
+			g.run(fmt.Sprintf("store %d %d %d %d", i, st.label, down, meta))
 		}
 	}
 }
